@@ -48,6 +48,12 @@ MODELS = {
     "isl4_stack": _spheres(4, 'solver="Newton"').replace('<body pos="3 0 .099">', '<body pos="0 0 .298">'),
     # 17 plane contacts: narrow phase splits into 2 chunks of 16/1 (chunks are >= 16 pairs)
     "pairs17": _spheres(17, 'solver="PGS" iterations="3"'),
+    # 17 ellipsoids resting (penetrating) on one static box: 17 general-convex pairs -> 2 narrow-phase chunks that both run
+    # GJK/EPA on per-thread scratch memory (addressed by the thread id)
+    "convex17": ('<mujoco>\n  <option solver="PGS" iterations="3"/>\n  <worldbody>\n    <geom type="box" size="20 20 .5" pos="0 0 -.5"/>\n%s\n'
+                 '  </worldbody>\n</mujoco>\n' % "\n".join(
+                     '    <body pos="%g %g .079"><freejoint/><geom type="ellipsoid" size=".1 .12 .08"/></body>' % ((i % 6) * 1.0, (i // 6) * 1.0)
+                     for i in range(17))),
     # tactile pad with 37x29 = 1073 taxels (>= 1000: the sensor's task-parallel path); one sphere presses on the taxels
     # with the highest indices, so a partition that drops a remainder of the taxels is visible
     "tactile": """<mujoco>
@@ -175,6 +181,8 @@ def run(ctx):
         for call in calls:
             for workers in ((1, 2) if not ctx.thorough else (1, 2, 3)):
                 if name == "pairs17" and (workers > 2 or (not ctx.thorough and call != "step")):
+                    continue
+                if name == "convex17" and (workers > 2 or call != "step"):
                     continue
                 if name == "tactile" and (call not in ("forward", "step") or (not ctx.thorough and call != "forward")):
                     continue
